@@ -31,6 +31,7 @@ import (
 	"github.com/decred/dcrd/dcrec/secp256k1/v4"
 	"github.com/ipfs/go-cid"
 
+	"berty.tech/go-ipfs-log/enc"
 	"berty.tech/go-ipfs-log/entry"
 	idp "berty.tech/go-ipfs-log/identityprovider"
 	"berty.tech/go-ipfs-log/iface"
@@ -744,9 +745,67 @@ func runC07(seed int64, tier string, outDir string) *result {
 		}
 	}
 
+	// entries of logs that seal their links (cbor.Options.LinkKey): the signature covers the links all the
+	// same - for a holder of the key every change of next or refs fails verification, on the entry as it
+	// was created and as it is read back from the store
+	sealedEvals := 0
+	{
+		key, err := enc.NewSecretbox([]byte("0123456789abcdef0123456789abcdef"))
+		if err != nil {
+			panic(err)
+		}
+		dio, err := cbor.IO(&entry.Entry{}, &entry.LamportClock{})
+		if err != nil {
+			panic(err)
+		}
+		kio := dio.ApplyOptions(&cbor.Options{LinkKey: key})
+		id := env.idents["c07-A"]
+		mkc := func(s string) cid.Cid { return fakeCid("c07-sealed-" + s) }
+		for k := 0; k < 6; k++ {
+			in := &entry.Entry{Payload: []byte(fmt.Sprintf("sealed-%d", k)), LogID: "c07s", Next: []cid.Cid{mkc(fmt.Sprint("n", k)), mkc(fmt.Sprint("m", k))}}
+			if k%2 == 0 {
+				in.Refs = []cid.Cid{mkc(fmt.Sprint("r", k)), mkc(fmt.Sprint("s", k))}
+			}
+			out, err := entry.CreateEntryWithIO(env.ctx, env.api, id, in, nil, kio)
+			if err != nil {
+				fail("sealed-links", "C07:sealed-entry-create-error", err.Error(), nil)
+				continue
+			}
+			created := out.(*entry.Entry)
+			subjects := map[string]*entry.Entry{"as created": created}
+			if back, err := entry.FromMultihashWithIO(env.ctx, env.api, created.GetHash(), id.Provider, kio); err == nil {
+				subjects["as read back"] = back.(*entry.Entry)
+			}
+			for how, e := range subjects {
+				sealedEvals++
+				if err := c07Clone(e).Verify(id.Provider, kio); err != nil {
+					fail("sealed-links", "C07:genuine-rejected", fmt.Sprintf("a genuine entry with sealed links (%s) does not verify: %v", how, err), nil)
+					continue
+				}
+				mods := map[string]func(c *entry.Entry){
+					"next replaced":       func(c *entry.Entry) { c.Next = []cid.Cid{mkc("x"), c.Next[1]} },
+					"next entry added":    func(c *entry.Entry) { c.Next = append(c.Next, mkc("y")) },
+					"next entry removed":  func(c *entry.Entry) { c.Next = c.Next[:1] },
+					"next order swapped":  func(c *entry.Entry) { c.Next = []cid.Cid{c.Next[1], c.Next[0]} },
+					"reference added":     func(c *entry.Entry) { c.Refs = append(c.Refs, mkc("z")) },
+					"references replaced": func(c *entry.Entry) { c.Refs = []cid.Cid{mkc("w")} },
+				}
+				for name, m := range mods {
+					c := c07Clone(e)
+					m(c)
+					sealedEvals++
+					if err := c.Verify(id.Provider, kio); err == nil {
+						fail("tamper-detected", "C07:tamper-accepted:sealed-links", fmt.Sprintf("entry with sealed links, %s: %s - Verify still succeeds", how, name), map[string]interface{}{"entry": k, "modification": name, "subject": how})
+					}
+				}
+			}
+		}
+	}
+	res.Stats["sealed_link_tamper_evaluations"] = sealedEvals
+
 	res.CaseFiles = writeShards(outDir, "C07", header, []*caseList{signList, sanList}, 40)
 	res.ModelCases = len(signList.items) + len(sanList.items)
-	res.Evaluations = evals + len(entries)
+	res.Evaluations = evals + len(entries) + sealedEvals
 	res.Distinct = len(distinct)
 	res.Rule = "entries: one per payload of a fixed pool (ASCII, multi-byte UTF-8 incl. the boundary code points, HTML characters, all control characters, quotes/backslashes, U+2028/9, 1-byte, every kind of invalid UTF-8: stray continuation, truncated 2/3/4-byte sequences, overlong, surrogates, > U+10FFFF, all 256 byte values) plus seeded random byte/UTF-8-ish/text payloads, plus one per (#next, #refs) shape in 0..5 x 0..5, with and without clock and additional data; modifications: every payload byte x up to 8 replacement values, log id bytes, next/refs insert/delete/replace/swap/duplicate/reverse, v, clock id, clock time, additional data, key, signature. distinct_nontrivial = number of distinct tampered entries (SHA-256 of signing bytes, key and signature) that were verified"
 	res.Stats["entries"] = len(entries)
